@@ -1325,7 +1325,9 @@ def label_guard(prog: Program) -> RuleResult:
             raise AnalysisError(f"{base}: expected one assignment to {var}.name")
         asg = assigns[0]
         gs = guards(fn, asg)
-        if any(pol and _is_unnamed_test(g, var) for g, pol in gs):
+        from ..canon import _not as _negated
+
+        if any(_is_unnamed_test(g if pol else _negated(g), var) for g, pol in gs):
             res.ok(f"{base}/only-unnamed", "assignment guarded by the unnamed test")
         else:
             res.fail(
